@@ -4,9 +4,14 @@
   are in `Lemmas/Display*.lean`.
 -/
 import Minicbor.Lemmas.TokenBasic
+import Minicbor.Lemmas.TokenTree
 import Minicbor.Lemmas.DisplayTotal
+import Minicbor.Lemmas.DisplayTree
+import Minicbor.Lemmas.DisplayBound
+import Minicbor.Lemmas.TokenCost
 
 namespace Minicbor.C19
+open C11
 
 /-- **`display` is total**: for every byte string the tokenizer finishes without panicking and the
     printer's two loops terminate within their fuels (`mu`, `Lemmas/DisplayTotal.lean`, bounds the
@@ -22,6 +27,97 @@ theorem display_total (bs : Bytes) : ∃ ps, display bs = some ps := by
 theorem display_ne_none (bs : Bytes) : display bs ≠ none := by
   obtain ⟨ps, h⟩ := display_total bs
   rw [h]; simp
+
+/-! ### the size bound -/
+
+/-- **The output is bounded by a constant multiple of the input length**: for every byte string,
+    `renderedLength (display bs) ≤ 16 · |bs| + 149` — within the `16 · len + 256` the
+    correspondence check enforces on the real output.  `renderedLength` (`Lemmas/DisplaySpec.lean`)
+    counts the literal text and string payloads and charges `FLOAT_CHARGE = 32` per float piece and
+    `ERR_CHARGE = 128` per error text (both texts come from Rust's formatter, outside the model).
+    Potential-function argument (`phi`, `Lemmas/DisplayBound.lean`): every emission is paid by a
+    consumed token; the rendering of a token plus the 5 bytes of separators / closers it can cause
+    cost at most 16 per input byte its decoding consumed (`token_rsize16`: a one-byte head carries
+    less than 24, twenty digits need nine bytes, `h'..'` is three characters per payload byte);
+    the separators a definite-length container schedules are charged to the `E::N` on top of them,
+    which consumes a token or — this is what commit 7258571 changed — reports the end of input
+    and returns.  On the pre-fix code this theorem is false (`9a 00 01 86 a0` rendered 200 kB). -/
+theorem display_bounded (bs : Bytes) (ps : List Piece) (h : display bs = some ps) :
+    renderedLength ps ≤ 16 * bs.length + 149 := by
+  unfold display at h
+  cases ht : tokens bs with
+  | none => rw [ht] at h; cases h
+  | some items =>
+    rw [ht] at h
+    obtain ⟨ex, h1, h2⟩ := displayOuter_bound _ _ _ _ _ h
+    have h3 := tokenize_cost _ _ _ ht
+    subst h1
+    have e : STOP_MAX = 149 := rfl
+    rw [e] at h2
+    omega
+
+/-- the constants exist (the form of the property text); they are the ones of the check. -/
+theorem display_bounded_exists :
+    ∃ K K0, K ≤ 16 ∧ K0 ≤ 256 ∧ ∀ bs ps, display bs = some ps → renderedLength ps ≤ K * bs.length + K0 :=
+  ⟨16, 149, by omega, by omega, display_bounded⟩
+
+/-- the bound is about the right order: one input byte can cost eleven output bytes (`f7` prints
+    `undefined`, plus a separator inside a container). -/
+example : display [0x9f, 0xf7, 0xf7, 0xf7, 0xff] =
+    some [.lit "[_ ", .lit "undefined", .lit ", ", .lit "undefined", .lit ", ", .lit "undefined", .lit "]"] := by
+  decide
+
+/-- decoding problems are reported inline, not as a failure: on the empty stack the printer's
+    reaction to a decoding error or to exhausted input inside a container is to append a message
+    and stop (here: a truncated definite array and an unknown initial byte). -/
+theorem display_error_inline :
+    display [0x82, 0x01] = some [.lit "[", .lit "1", .lit ", ", .lit " !!! decoding error: ", .errmsg .eoi] ∧
+    display [0x9f, 0x01] = some [.lit "[_ ", .lit "1", .lit " !!! indefinite array not closed"] ∧
+    display [0x01, 0xfc] = some [.lit "1", .lit " !!! decoding error: ", .errmsg .type] := by
+  refine ⟨?_, ?_, ?_⟩ <;> decide
+
+/-! ### the documented notation -/
+
+/-- **For a sequence of well-formed data items the output is exactly the documented notation** of
+    each item (`render`, `Lemmas/DisplaySpec.lean`, written from the syntax summary in `lib.rs`),
+    one after the other.  Holds for every valid wire tree: any head widths, any nesting,
+    indefinite-length arrays / maps, chunked strings. -/
+theorem display_documented_seq (ws : List WItem) (hv : validAll ws = true) :
+    display (encWs ws) = some (ws.flatMap render) := by
+  have ht : tokens (encWs ws) = some ((toksL ws).map TokItem.tok) :=
+    tokens_steps_all (by simpa using steps_items ws hv [])
+  unfold display
+  rw [ht]
+  simp only []
+  have hg := good_items ws hv
+  have h := displayOuter_items (ditems ws) hg ((toksL ws).length + 2) (8 * (toksL ws).length + 16) []
+    (by
+      have h2 := good_length (ditems ws) hg
+      rw [ditems_toks, ditems_length] at h2
+      rw [ditems_length]; omega)
+    (by rw [ditems_toks]; omega)
+  rw [ditems_toks, ditems_render] at h
+  simp only [List.length_map, List.nil_append] at h ⊢
+  rw [h]
+  congr 1
+  clear h ht hg hv
+  induction ws with
+  | nil => rfl
+  | cons w ws ih => simp [renderL, ih]
+
+/-- **For every well-formed data item the output is exactly the documented notation.** -/
+theorem display_documented (w : WItem) (hv : w.Valid) : display (encW w) = some (render w) := by
+  have := display_documented_seq [w] (by simp [validAll, hv])
+  simpa [encWs] using this
+
+/-- non-vacuity / a reading of the notation: a nested item with every kind of container. -/
+example :
+    display (encW (.map .w1 [.text .w0 [0x61], .arrayI [.uint .w0 1, .bytesI [(.w0, [0xab, 0xcd]), (.w0, [])]],
+                              .nint .w0 0, .tag .w0 2 (.textI [])])) =
+      some [.lit "{", .lit "\"", .raw [0x61], .lit "\"", .lit ": ", .lit "[_ ", .lit "1", .lit ", ", .lit "(_ ",
+            .lit "h'ab cd'", .lit ", ", .lit "h''", .lit ")", .lit "]", .lit ", ", .lit "-1", .lit ": ",
+            .lit "2(", .lit "\"\"_", .lit ")", .lit "}"] := by
+  decide
 
 /-- concrete evaluations (tests, not the general claim): a definite array with an extreme
     declared length renders its head, reports the end of input inline and stops. -/
